@@ -30,7 +30,7 @@ def small_scope_graphs(n_inner, self_loops):
 
 def gen_cases(tier, seed):
     cases = []
-    n = 300 if tier == "quick" else 3000
+    n = 300 if tier == "quick" else 25000
     for i in range(n):
         rng = gen.rng_for("C17h", seed, i)
         nodes, edges = gen.cyc_any(rng, 14) if rng.random() < 0.75 else gen.dag_any(rng, 14)
